@@ -41,8 +41,8 @@ def split_dataset(seed=11, chrom_len=60000, n_fill=700, f_exons=((1000, 1500), (
     if with_filler:
         for k in range(n_fill):
             ds.read_from_exons("F%d" % k, "chr1", F, flag=flag, **tail)
-    for s in starts:
-        for k in range(per_start):
+    for j, s in enumerate(starts):
+        for k in range(per_start[j] if isinstance(per_start, (tuple, list)) else per_start):
             ex = [(s, N[0][1])] + N[1:]
             ds.read_from_exons("N%d_%d" % (s, k), "chr1", ex, flag=flag, **tail)
     if annotate_f:
@@ -54,7 +54,7 @@ def split_dataset(seed=11, chrom_len=60000, n_fill=700, f_exons=((1000, 1500), (
     return ds
 
 
-def random_split_dataset(seed):
+def random_split_dataset(seed, with_filler=True):
     """a split locus with random geometry: position and depth of the neighbour, exon structure of N (3-5 exons), 2-3 groups of
     5' ends on both sides of the balance point of the resolver's overlap rule, +/- annotation of the neighbour.
     -> (Dataset, info)"""
@@ -82,6 +82,6 @@ def random_split_dataset(seed):
     total = per_start * len(starts)
     ds = split_dataset(seed=seed, chrom_len=max(60000, end + 9000), n_fill=max(500, 100 * total + 100), f_exons=(f1, f2),
                        n_exons=[(lo, n1e)] + rest, starts=starts, per_start=per_start, strand="+",
-                       annotate_f=rng.random() < 0.5, far_gene=True)
+                       annotate_f=rng.random() < 0.5, far_gene=True, with_filler=with_filler)
     info = {"cut": cut, "balance": bal, "starts": starts, "n_exons": [(lo, n1e)] + rest, "reads_of_N": total}
     return ds, info
